@@ -391,3 +391,23 @@ Section Net2One.
     - rewrite Hr. f_equal. f_equal. now apply on_channel_only.
   Qed.
 End Net2One.
+
+(* ---------------------------------------------------------------- why the codec obligations matter
+   (the two decoders repaired in pallas-network violated exactly these) *)
+Lemma empty_segment_spurious {M} (dec : list Z -> dec_result M) m :
+  dec [] = DecOk m 0 -> recv_all dec [[]] = ([m], Ok []).
+Proof.
+  intros H. unfold recv_all. cbn [concat app length Nat.add recv_all_fuel recv_full_msg recv_loop].
+  unfold try_decode_message. cbn [app]. rewrite H. reflexivity.
+Qed.
+
+Lemma short_read_wrong_message {M} (dec : list Z -> dec_result M) m' p s :
+  p <> [] -> dec p = DecOk m' (length p) ->
+  exists rest fin, recv_all dec [p; s] = (m' :: rest, fin).
+Proof.
+  intros Hp H. unfold recv_all.
+  remember (length (concat [p; s]) + length [p; s])%nat as f.
+  cbn [recv_all_fuel recv_full_msg recv_loop]. unfold try_decode_message. cbn [app]. rewrite H.
+  destruct (recv_all_fuel dec f (skipn (length p) p) [s]) as [rest fin] eqn:E.
+  exists rest, fin. reflexivity.
+Qed.
